@@ -78,7 +78,8 @@ SHARD_TIMEOUT = {'quick': 600, 'thorough': 2400}
 
 KEYS = (('pr', 1), ('pr', 2), ('commit', 'a' * 40), ('commit', 'b' * 40))
 KEY_PAIRS = ((0, 2), (0, 1), (2, 3), (1, 3), (2, 0), (3, 1))
-OUTCOMES = ('silent', 'template', 'internal', 'exception')
+OUTCOMES = ('silent', 'template', 'internal', 'exception',
+            'exception_empty', 'exception_multiline', 'jobfailure_empty')
 WATCHDOG_S = 30.0
 FREE_WATCHDOG_S = 10.0
 
@@ -166,12 +167,21 @@ class Env:
                     active_options=[], command='vf', author='author')
             if kind == 'internal':
                 raise exc.UnableToSendEmail('vf internal')
+            if kind == 'exception_empty':
+                raise RuntimeError()          # no message at all
+            if kind == 'exception_multiline':
+                raise ValueError('first line\nsecond line \u2603\n')
+            if kind == 'jobfailure_empty':
+                raise exc.JobFailure()
             raise KeyError('vf arbitrary exception')
 
         self.handler = vf_handler
         self.expected_status = {
             'silent': 'NothingToDo', 'template': 'CommandNotImplemented',
-            'internal': 'UnableToSendEmail', 'exception': 'KeyError'}
+            'internal': 'UnableToSendEmail', 'exception': 'KeyError',
+            'exception_empty': 'RuntimeError',
+            'exception_multiline': 'ValueError',
+            'jobfailure_empty': 'JobFailure'}
         # real dispatch (MRO walk over the callbacks) ends in our handler
         BertE.set_callback(PullRequestJob, vf_handler)
         BertE.set_callback(CommitJob, vf_handler)
@@ -637,7 +647,7 @@ def make_cfg(assign, pair, rot):
     for t in assign:
         row = []
         for _ in t:
-            row.append(OUTCOMES[n % 4])
+            row.append(OUTCOMES[n % len(OUTCOMES)])
             n += 1
         outcomes.append(row)
     return {'threads': threads, 'outcomes': outcomes}
